@@ -106,6 +106,8 @@ def run(repo: Repo, rep: Report) -> None:
     rep.rule("ALG-10", "grid form: roots given as (y, x) become y * width + x; None entries kept; the label array is flattened row-major onto the grid graph")
     rep.saw(GRAPH, "_division_connected")
     small = [g for g in GRAPHS if g[1] <= 4]
+    from .encodings import standard_history
+    standard_history(repo, rep, "division_connected", "labels")
     xitems: List[Any] = []
     all_ok = True
     for native in (False, True):
@@ -152,13 +154,17 @@ def run(repo: Repo, rep: Report) -> None:
         bad = None
         n_i = 0
         # None entries before, between and after coordinates: each root keeps the label of its own position in the list
-        for h, w, roots in ((2, 3, [(0, 2), None]), (3, 2, [(2, 1), (0, 0)]), (2, 2, None), (2, 3, [None, (0, 0)]), (1, 3, [None, (0, 2)]),
-                            (3, 2, [None, None])):
+        # the root list is also handed over as a tuple and as a one-shot iterable (compass.py passes a `map` object)
+        from ..core.fde import OneShot
+        for h, w, roots, form in ((2, 3, [(0, 2), None], "list"), (3, 2, [(2, 1), (0, 0)], "list"), (2, 2, None, "list"), (2, 3, [None, (0, 0)], "list"),
+                                  (1, 3, [None, (0, 2)], "list"), (3, 2, [None, None], "list"), (2, 3, [(1, 0), (0, 2)], "map"), (2, 2, [(0, 0), (1, 1)], "map"),
+                                  (1, 3, [None, (0, 2)], "map"), (3, 2, [(2, 1), None], "tuple")):
             n_i += 1
             inst = Instance(repo)
             arr = inst.s.attrs["int_array"]((h, w), 0, 1)
             inst.arrays[-1]["user"] = "D"
-            inst.w.call("division_connected", inst.s, arr, 2, roots=roots)
+            given = roots if form == "list" or roots is None else (OneShot(list(roots)) if form == "map" else tuple(roots))
+            inst.w.call("division_connected", inst.s, arr, 2, roots=given)
             edges = [(y * w + x, y * w + x + 1) for y in range(h) for x in range(w - 1)] + [(y * w + x, (y + 1) * w + x) for y in range(h - 1) for x in range(w)]
             # the library's own edge order is (right, down) per cell; the schema comparison is order-insensitive in edges only up to forest naming,
             # so rebuild the edge list in the library's documented order
@@ -173,7 +179,7 @@ def run(repo: Repo, rep: Report) -> None:
             refs, cons = ref_forest(h * w, edges, 2, False, conv)
             same, diff = compare(inst, refs, cons)
             if not same:
-                bad = f"division_connected on a {h}x{w} IntArray2D with roots {roots}: {diff}"
+                bad = f"division_connected on a {h}x{w} IntArray2D with roots {roots}{' given as a one-shot iterable (map object)' if form == 'map' else ''}: {diff}"
                 break
         inst = Instance(repo)
         arr = inst.s.attrs["int_array"]((2, 2), 0, 1)
